@@ -308,7 +308,7 @@ func (px *pathCtx) escaped(msg string) {
 		px.res.status = "killed"
 		return
 	}
-	px.violation("panic", "no panic escapes: "+firstLine(msg), msg, r == "sat")
+	px.violation("panic", "no panic escapes: "+normalizeLabel(firstLine(msg)), msg, r == "sat")
 }
 
 func firstLine(s string) string {
@@ -361,4 +361,23 @@ func (i *interpreter) stackString() string {
 		names = append(names, st[k].String())
 	}
 	return strings.Join(names, " < ")
+}
+
+// normalizeLabel removes run-specific detail (numbers, addresses) from a
+// panic message so that it can serve as a stable label.
+func normalizeLabel(s string) string {
+	var b strings.Builder
+	prevHash := false
+	for _, c := range s {
+		if c >= '0' && c <= '9' {
+			if !prevHash {
+				b.WriteByte('#')
+			}
+			prevHash = true
+			continue
+		}
+		prevHash = false
+		b.WriteRune(c)
+	}
+	return b.String()
 }
